@@ -292,6 +292,31 @@ def run_shard(shard):
                                       f"{got!r}, the limits say {want!r}", {"t": "limits"})
                         break
                 res["distinct"].add(("limits", width, signed, lo is None, hi is None))
+        # locations "in the order required by the value": LSB first, with a gap, three bytes reversed - interpretation takes the bytes
+        # at the DECLARED addresses in declared order (MASK / TMASK patterns included), whatever the neighbouring bytes are
+        for addrs in ((0x13, 0x12), (0x20, 0x22), (0x2A, 0x29, 0x28), (0x30, 0x31)):
+            bank = MemoryBank(61, 0x40)
+            cls = type("Ordered", (NumericValue,), {"bank": bank, "locations": tuple(MemoryLocation(a, type_=MemoryType.ROM) for a in addrs),
+                                                   "mask_supported": True, "tmask_supported": True})
+            w = len(addrs)
+            ones = (1 << (8 * w)) - 1
+            for num in (0, 1, 0x1234 & ones, 0xFF00 & ones, 0x00FF, ones, ones - 1, ones - 2, 0xFE01 & ones, 0xABCDEF & ones):
+                for filler in (0x00, 0xFF, 0x5A):
+                    raw = num.to_bytes(w, "big")
+                    lst = [filler] * 255
+                    for a, b in zip(addrs, raw):
+                        lst[a] = b
+                    want = "MASK" if num == ones else "TMASK" if num == ones - 1 else num
+                    n += 1
+                    try:
+                        got = cls.from_list(lst)
+                    except Exception as e:
+                        got = "EXC:" + repr(e)
+                    gotn = got.name if isinstance(got, FlagValue) else got
+                    if gotn != want:
+                        add_violation(res, "C11:declared-order", f"user value with locations {[hex(a) for a in addrs]} holding {raw.hex()} (other bytes {filler:#04x}): "
+                                      f"{got!r}, expected {want!r}", {"t": "limits"})
+            res["distinct"].add(("declared-order", addrs))
         res["evaluations"] += n
         sample(res, {"limit_decodes": n})
         return res
